@@ -57,6 +57,7 @@ var durNames = []string{"default", "10ms", "none", "1h", "maxDuration"}
 var defExps = []time.Duration{cache.NoExpiration, 0, 50 * time.Millisecond, -time.Second, time.Duration(math.MinInt64)}
 
 const nEnumDefExps = 3
+
 var cleanups = []time.Duration{0, 20 * time.Millisecond}
 
 // advance targets, interpreted at execution time
@@ -831,6 +832,70 @@ func anyProp(c AnyCase, r *pbt.R) error {
 	return nil
 }
 
+// ---------------------------------------------------------------------------
+// longlife: ONE cache through several bursts of short-lived entries and sweeps; the entries without a deadline stay
+
+// LongLifeCase: Def indexes longDefs (the default lifetime), Bursts times: Burst entries with a 1ms lifetime are stored, the
+// clock moves 2ms on, the expired ones are swept (explicitly, or by the cleanup goroutine when Cleanup is set). Four
+// residents are stored first, one in each way an entry can be without a near deadline.
+type LongLifeCase struct {
+	Def     int  `json:"def"`
+	Bursts  int  `json:"bursts"`
+	Burst   int  `json:"burst"`
+	Cleanup bool `json:"cleanup"`
+}
+
+var longDefs = []time.Duration{0, cache.NoExpiration, -time.Second, time.Hour}
+
+func longLifeProp(c LongLifeCase, r *pbt.R) error {
+	def := longDefs[((c.Def%len(longDefs))+len(longDefs))%len(longDefs)]
+	bursts, burst := 1+((c.Bursts-1)%8+8)%8, 1+((c.Burst-1)%6000+6000)%6000
+	interval := time.Duration(0)
+	if c.Cleanup {
+		interval = 20 * time.Millisecond
+	}
+	ch := cache.New[string, int](def, interval)
+	if c.Cleanup {
+		defer func() {
+			ch.VerifStopCleanup()
+			synctest.Wait()
+		}()
+		synctest.Wait()
+	}
+	ch.SetDefault("res-default", 1)
+	ch.Set("res-none", 2, cache.NoExpiration)
+	ch.Set("res-hour", 3, time.Hour)
+	ch.Set("res-huge", 4, time.Duration(math.MaxInt64))
+	residents := map[string]int{"res-default": 1, "res-none": 2, "res-hour": 3, "res-huge": 4}
+	removed := 0
+	for b := 0; b < bursts; b++ {
+		for k := 0; k < burst; k++ {
+			if err := ch.Set(fmt.Sprintf("b%d-%d", b, k), k, time.Millisecond); err != nil {
+				return fmt.Errorf("cache.New(default %d ns, cleanup %v): Set of a fresh key in burst %d failed: %v", int64(def), interval, b, err)
+			}
+		}
+		time.Sleep(2 * time.Millisecond)
+		if c.Cleanup {
+			time.Sleep(40 * time.Millisecond)
+			synctest.Wait()
+		} else {
+			ch.DeleteExpired()
+		}
+		removed += burst
+		ctx := fmt.Sprintf("one cache.New(default %d ns, cleanup %v) after %d bursts of %d entries with a 1ms lifetime, each burst followed by a sweep 2ms later (%d entries removed so far)", int64(def), interval, b+1, burst, removed)
+		if got := ch.Count(); got != len(residents) {
+			return fmt.Errorf("%s: Count() = %d, want the %d residents (stored by SetDefault, with NoExpiration, for one hour, for the largest Duration)", ctx, got, len(residents))
+		}
+		for k, v := range residents {
+			if it, err := ch.Get(k); err != nil || it.Val() != v {
+				return fmt.Errorf("%s: Get(%q) = (%v, %v), want the value %d: the entry has no deadline within the case", ctx, k, it, err, v)
+			}
+		}
+	}
+	r.NonTrivialIf(removed >= 4096, ">= 4096 entries removed from the one cache")
+	return nil
+}
+
 func TestProp(t *testing.T) {
 	pbt.Run(t, "C08",
 		&pbt.Check[Case]{
@@ -851,8 +916,8 @@ func TestProp(t *testing.T) {
 			},
 		},
 		&pbt.Check[VolumeCase]{
-			Name: "volume",
-			Rule: "one cache, N keys stored one after the other (all for one hour / every third without expiry / every third with 1ms), read back 2ms later in virtual time: every live entry is served with its value, no expired one is, Count agrees, DeleteExpired removes exactly the expired ones. N in {1, 100, 1023, 1024, 1025, 3000} x 3 mixes (thorough also 10000). Non-trivial = N >= 1000.",
+			Name:  "volume",
+			Rule:  "one cache, N keys stored one after the other (all for one hour / every third without expiry / every third with 1ms), read back 2ms later in virtual time: every live entry is served with its value, no expired one is, Count agrees, DeleteExpired removes exactly the expired ones. N in {1, 100, 1023, 1024, 1025, 3000} x 3 mixes (thorough also 10000). Non-trivial = N >= 1000.",
 			Fixed: []VolumeCase{{1, 0}, {100, 2}, {1023, 0}, {1024, 0}, {1025, 1}, {3000, 0}, {3000, 2}, {1024, 2}},
 			Gen: func(s pbt.Src, thorough bool) VolumeCase {
 				if thorough {
@@ -862,6 +927,16 @@ func TestProp(t *testing.T) {
 			},
 			Prop: volumeProp, OutOfEnum: func(VolumeCase, bool) bool { return true },
 			RapidQuick: 2, RapidThorough: 6, Bubble: true,
+		},
+		&pbt.Check[LongLifeCase]{
+			Name: "longlife",
+			Rule: "ONE cache (default lifetime 0, NoExpiration, -1s or 1h; without or with a cleanup goroutine every 20ms) holds four residents without a near deadline (stored by SetDefault, with NoExpiration, for one hour, for the largest Duration) and goes through 1..8 bursts of up to 6000 entries with a 1ms lifetime, each followed 2ms later by a sweep (DeleteExpired, or two cleanup ticks): after every sweep Count is 4 and every resident is served. Fixed: 3 x 2000 and 5 x 1000 on every default, both ways of sweeping. Non-trivial = at least 4096 entries removed.",
+			Gen: func(s pbt.Src, _ bool) LongLifeCase {
+				return LongLifeCase{Def: s.Intn(len(longDefs)), Bursts: 1 + s.Intn(8), Burst: pbt.Pick(s, 100, 1100, 2100, 4200), Cleanup: pbt.Bool(s)}
+			},
+			Prop: longLifeProp, OutOfEnum: func(LongLifeCase, bool) bool { return true },
+			Fixed:      []LongLifeCase{{0, 3, 2000, false}, {0, 3, 2000, true}, {1, 3, 2000, false}, {2, 5, 1000, true}, {3, 5, 1000, false}, {0, 5, 1000, true}, {2, 3, 2000, false}, {3, 3, 2000, true}},
+			RapidQuick: 2, RapidThorough: 30, Bubble: true,
 		},
 		&pbt.Check[AnyCase]{
 			Name: "anyvalues",
@@ -874,7 +949,9 @@ func TestProp(t *testing.T) {
 				}
 				return AnyCase{Ops: pbt.Seq(s, 1, n, func(s pbt.Src) [2]int { return [2]int{s.Intn(3), s.Intn(5)} })}
 			},
-			Gen:        func(s pbt.Src, _ bool) AnyCase { return AnyCase{Ops: pbt.Seq(s, 1, 12, func(s pbt.Src) [2]int { return [2]int{s.Intn(3), s.Intn(5)} })} },
+			Gen: func(s pbt.Src, _ bool) AnyCase {
+				return AnyCase{Ops: pbt.Seq(s, 1, 12, func(s pbt.Src) [2]int { return [2]int{s.Intn(3), s.Intn(5)} })}
+			},
 			Prop:       anyProp,
 			OutOfEnum:  func(c AnyCase, th bool) bool { return len(c.Ops) > 4 },
 			RapidQuick: 100, RapidThorough: 2000,
